@@ -163,21 +163,22 @@ def replay(chk, exe, g, elem, usable, nc, tag):
 # random histories with throw injection, validated by FixedVectorTrace
 
 
-def gen_history(rng, nc, n, copyable, has_lv):
+def gen_history(rng, nc, n, copyable, has_lv, big=False):
+    """big: capacities and list lengths around 127 / 255 / 300 (sizes kept in narrow integers, index arithmetic)."""
     st = [None] * nc     # python mirror used only to generate calls whose preconditions make them defined
     steps = []
     V = lambda: rng.randint(1, 9)
-    L = lambda: [V() for _ in range(rng.randint(0, 3))]
+    L = lambda: [V() for _ in range(rng.choice([0, 1, 3, 127, 128, 200, 255, 256, 257]) if big and rng.random() < 0.6 else rng.randint(0, 3))]
     for _ in range(n):
         c = rng.randrange(nc)
         if st[c] is None:
             r = rng.random()
             others = [d for d in range(nc) if st[d] is not None and st[d] != "dirty"]
             if r < 0.4 or not others:
-                cap = rng.randint(0, 6)
+                cap = rng.choice([127, 128, 255, 256, 257, 300]) if big else rng.randint(0, 6)
                 if copyable and rng.random() < 0.4:
                     s = L()
-                    if rng.random() < 0.5:
+                    if len(s) <= 3 and rng.random() < 0.5:     # initializer lists are spelled out in the driver: up to 3 elements
                         steps.append(dict(op="ConstructList", args=[c + 1, s]))
                         st[c] = dict(cap=len(s), seq=list(s))
                     else:
@@ -289,7 +290,7 @@ def record(chk, exe, has_lv, n_hist, nc=3):
     cases = []
     for k in range(n_hist):
         copyable = k % 3 != 2
-        cases.append(dict(elem="copy" if copyable else "move", nc=nc, steps=gen_history(rng, nc, rng.randint(5, 40), copyable, has_lv)))
+        cases.append(dict(elem="copy" if copyable else "move", nc=nc, steps=gen_history(rng, nc, rng.randint(5, 40), copyable, has_lv, big=(k % 40 == 7))))
     # DestroyIfExists is a driver convenience (Destroy when the container exists): expand after the run
     dcases = [dict(elem=c["elem"], nc=nc, steps=[dict(s, op="DestroyIfExists") if s["op"] == "DestroyIfExists" else s for s in c["steps"]]) for c in cases]
     obs = vc.run_cases(exe, dcases, chk.out, "record", per_case_timeout=10)
